@@ -158,6 +158,11 @@ func c05Prop(t vpT, c c05Case) (nontrivial bool, classes []string, tests int) {
 				}
 				continue
 			}
+			// the only documented "never kept" factor is MaxFloat32 (Size < 1 in Add, no quota in quota mode): a
+			// row that goes through sampling is kept with probability 1/SF > 0, so its factor is a finite number
+			if math.IsInf(o.SF, 0) || math.IsNaN(o.SF) {
+				t.Fatalf("run %d (seed %d): row %d (metric %d, size %d) reported with factor %v (kept=%v): keep probability 1/SF must be positive", r, seed, i, s.Metrics[row.M].ID, row.Size, o.SF, o.Keep == 1)
+			}
 			if !(o.SF >= 1) {
 				t.Fatalf("run %d (seed %d): row %d (metric %d) reported with sample factor %v < 1 (kept=%v)", r, seed, i, s.Metrics[row.M].ID, o.SF, o.Keep == 1)
 			}
@@ -178,6 +183,11 @@ func c05Prop(t vpT, c c05Case) (nontrivial bool, classes []string, tests int) {
 			}
 			rows[i].add(o.Keep == 1, o.SF, row.Whale+1)
 		}
+		for _, sf := range h.SFs {
+			if v := float64(sf.Value); math.IsInf(v, 0) || math.IsNaN(v) {
+				t.Fatalf("run %d (seed %d): factor %v reported for metric %d", r, seed, v, sf.Metric)
+			}
+		}
 		if !sawWhale || !sawSampled {
 			for _, lf := range leaves {
 				one, more := false, false
@@ -196,6 +206,9 @@ func c05Prop(t vpT, c c05Case) (nontrivial bool, classes []string, tests int) {
 	// ---- statistical clause
 	check := func(what string, sum, v, m float64, n int) {
 		tests++
+		if math.IsInf(v, 0) || math.IsNaN(v) || math.IsInf(m, 0) || math.IsNaN(m) {
+			t.Fatalf("%s: variance bound %v / magnitude bound %v not finite: the test would be vacuous", what, v, m)
+		}
 		if v == 0 {
 			if sum != 0 {
 				t.Fatalf("%s: deviation %v with zero variance", what, sum)
@@ -244,6 +257,11 @@ func c05Prop(t vpT, c c05Case) (nontrivial bool, classes []string, tests int) {
 	if fitsAll {
 		classes = append(classes, "all-fit")
 	}
+	if s.Budget == 0 && len(root.Rows) > 0 {
+		classes = append(classes, "zero-budget-at-sampled-level")
+	} else if s.Budget <= 4 && len(root.Kids) > 0 && !root.Kids[len(root.Kids)-1].leaf() {
+		classes = append(classes, "tiny-budget-nested")
+	}
 	for _, k := range root.Kids {
 		if k.Fixed {
 			classes = append(classes, "fixed-budget")
@@ -266,9 +284,15 @@ func c05Gen() *rapid.Generator[c05Case] {
 		ns = []int{3000, 10000}
 		maxRows = 400
 	}
-	g := vpsampGen(vpsampGenCfg{MaxRows: maxRows, ZeroSize: true})
+	g := vpsampGen(vpsampGenCfg{MaxRows: maxRows, ZeroSize: true, ZeroMode: true})
 	return rapid.Custom(func(t *rapid.T) c05Case {
-		return c05Case{S: g.Draw(t, "bucket"), Seed: rapid.Uint64().Draw(t, "seed"), N: rapid.SampledFrom(ns).Draw(t, "runs")}
+		c := c05Case{S: g.Draw(t, "bucket"), Seed: rapid.Uint64().Draw(t, "seed"), N: rapid.SampledFrom(ns).Draw(t, "runs")}
+		if c.S.Budget <= 4 && len(c.S.Rows) <= 8 {
+			// zero-budget mode: the legitimate fallback factor is 28..~250, keep probabilities are small; the
+			// tiny bucket makes many more runs affordable (power against "kept less often than 1/SF")
+			c.N = ns[len(ns)-1] * 7
+		}
+		return c
 	})
 }
 
